@@ -355,8 +355,34 @@ pub fn op_strategy() -> BoxedStrategy<Op> {
 fn hist_strategy(_t: Tier) -> BoxedStrategy<Hist> {
     let q = (coll_name(), select(vec![1u16, 28, 33, 16, 12, 7, 15, 10, 255, 253, 254, 252, 251]), select(vec![1u16, 3, 255]), any::<bool>())
         .prop_map(|(name, qtype, qclass, unicast)| AQuestion { name, qtype, qclass, unicast });
-    (vec(op_strategy(), 0..12), vec(q, 0..=2), any::<u16>())
+    (vec(op_strategy(), 0..12), vec((q, any::<u16>()), 0..=2), any::<u16>())
         .prop_map(|(mut ops, questions, id)| {
+            // half of the questions ask for a name the history mentions (an owner, or an SRV / PTR target)
+            let mentioned: Vec<AName> = ops
+                .iter()
+                .filter_map(|o| match o {
+                    Op::AddAuth(r) | Op::AddCached(r) | Op::Remove(r) => Some(r),
+                    Op::Clear => None,
+                })
+                .flat_map(|r| {
+                    let mut v = vec![r.name.clone()];
+                    if let ARData::Typed { code, fields } = &r.rdata {
+                        for (n, _) in embedded_names(*code, fields) {
+                            v.push(n.clone());
+                        }
+                    }
+                    v
+                })
+                .collect();
+            let questions: Vec<AQuestion> = questions
+                .into_iter()
+                .map(|(mut q, pick)| {
+                    if pick % 2 == 0 && !mentioned.is_empty() {
+                        q.name = mentioned[gen::pick(pick, mentioned.len())].clone();
+                    }
+                    q
+                })
+                .collect();
             // removals mostly target records that were added
             let added: Vec<ARecord> = ops.iter().filter_map(|o| if let Op::AddAuth(r) | Op::AddCached(r) = o { Some(r.clone()) } else { None }).collect();
             if !added.is_empty() {
